@@ -16,8 +16,14 @@ THEOREMS = [
 ]
 RULE = ("one operation = one complete key exchange of the real client (NewMTProto + CreateConnection over loopback "
         "TCP) with an independent conformant server (own TL, IGE over crypto/aes, SHA-1, RSA-2048 private-key "
-        "decryption, DH on the 2048-bit Telegram prime, g in 2..7), followed by one encrypted request that the "
-        "server opens with its own MTProto-1.0 envelope code. Client draws (nonce, new_nonce, b, padding) are "
+        "decryption, DH on a 2048-bit safe prime - Telegram's, RFC 3526 group 14, RFC 7919 ffdhe2048, the latter two "
+        "built from their formulas and checked to be safe primes - with a g in 2..7 that fits it), followed by one "
+        "encrypted request that the server opens with its own MTProto-1.0 envelope code and, when its clock is "
+        "given relative to this machine's (now+K / now-K: it announces now+K as server_time and runs on in real "
+        "time), accepts only with a msg_id between 300 s behind and 30 s ahead of its clock; K over every offset a "
+        "client stamping with its own clock is compatible with (-28 .. +298). The application's Warnings channel "
+        "is nil / buffered / unbuffered and unread until CreateConnection returns / unbuffered and drained, with "
+        "every group. Client draws (nonce, new_nonce, b, padding) are "
         "fixed by substituting crypto/rand.Reader and seeding math/rand. Always: 6 honest exchanges (every g, "
         "fixed-width and minimal integers, extra fingerprints), 8 exchanges with the client's key fingerprint "
         "alone / last / first / in the middle / among several / next to near-misses in the server's list, each field of {nonce, server_nonce, new_nonce, "
